@@ -55,11 +55,12 @@
 //     have returned (synchronous gauges written by >= 2 goroutines excepted:
 //     each reader keeps its own last value).
 //
-// Open finding recognised by the matcher legacy_colon_in_attribute_key: under
-// the legacy scheme the exporter escapes attribute keys with the METRIC name
-// rule, which keeps ':'; the label name "a:b" is illegal, NewConstMetric
-// fails, the error goes to otel.Handle and every series of the instrument is
-// silently missing from the scrape.
+// Defect found by this check and since repaired in /repo (see
+// known_findings.json, "fixed: property=C18 ... ':'"): under the legacy scheme
+// the exporter escaped attribute keys with the METRIC name rule, which keeps
+// ':'; the label name "a:b" is illegal, NewConstMetric failed and every series
+// of the instrument was silently missing from the scrape. Regression replay:
+// replays/regress/C18/legacy_colon_in_attribute_key.json.
 package c18
 
 import (
@@ -75,7 +76,6 @@ func TestScrapeModel(t *testing.T) {
 			"non-trivial = some instrument name contains 'total' or a unit word, or attribute keys collide after sanitisation under the legacy scheme; distinct = distinct case encodings",
 		Quick: 4000, Thorough: 40000,
 		Gen: genCase(false), Run: runSeq,
-		Known: map[string]func(Case, vk.Violation) bool{"legacy_colon_in_attribute_key": knownColonKey},
 	})
 }
 
@@ -86,7 +86,6 @@ func TestConcurrentScrapes(t *testing.T) {
 			"non-trivial = every case (>= 2 concurrent scrapes); distinct = distinct case encodings",
 		Quick: 1200, Thorough: 12000,
 		Gen: genCase(true), Run: runConc,
-		Known:  map[string]func(Case, vk.Violation) bool{"legacy_colon_in_attribute_key": knownColonKey},
 		Repeat: 20,
 	})
 }
